@@ -204,3 +204,54 @@ func (l *c07LenReader) Read(p []byte) (int, error) {
 }
 func (l *c07LenReader) ReadByte() (byte, error) { return l.r.ReadByte() }
 func (l *c07LenReader) Len() int                { return min(l.window, l.r.Len()) }
+
+// c03HugeSchema: a wide table - three thousand columns, a schema document of about 150 KB (the
+// specification sets no limit on a header entry), and a 1.2 MB one - read into a two-field
+// projection; the values of the kept columns come back.
+func c03HugeSchema(r *Run) {
+	for _, cols := range []int{3000, 20000} {
+		if cols > 3000 && !r.Thorough() && r.Seed%2 == 0 {
+			continue
+		}
+		var sb bytes.Buffer
+		sb.WriteString(`{"type":"record","name":"Wide","fields":[`)
+		var row []byte
+		for i := 0; i < cols; i++ {
+			if i > 0 {
+				sb.WriteByte(',')
+			}
+			fmt.Fprintf(&sb, `{"name":"column_number_%05d","type":["null","long"],"doc":"c%d"}`, i, i)
+			row = append(row, 2)
+			row = append(row, specVarint(int64(i*3))...)
+		}
+		sb.WriteString(`]}`)
+		type proj struct {
+			First *int64 `json:"column_number_00000"`
+			Mid   *int64 `json:"column_number_01500"`
+		}
+		for _, codec := range []string{"null", "snappy"} {
+			ct := &Container{SchemaJSON: sb.Bytes(), Codec: codec, Sync: randSync(r.Rng), Blocks: []CBlock{{Count: 2, Payload: append(append([]byte{}, row...), row...)}}}
+			file := ct.Bytes(false)
+			n, bad := 0, ""
+			err := func() (err error) {
+				defer func() {
+					if p := recover(); p != nil {
+						err = fmt.Errorf("PANIC: %v", p)
+					}
+				}()
+				return avro.ReadFile(bytes.NewReader(file), proj{}, func(val unsafe.Pointer, rb *avro.ResourceBank) error {
+					v := (*proj)(val)
+					if v.First == nil || *v.First != 0 || v.Mid == nil || *v.Mid != 4500 {
+						bad = "the kept columns do not hold what was written"
+					}
+					n++
+					return nil
+				})
+			}()
+			r.Count("huge-schema")
+			if err != nil || n != 2 || bad != "" {
+				r.Fail(-1, "legal-rejected", fmt.Sprintf("a valid file of %d columns (schema document of %d bytes, %s): %d of 2 records, error %v %s", cols, sb.Len(), codec, n, err, bad), map[string]any{"columns": cols, "schema_bytes": sb.Len(), "codec": codec})
+			}
+		}
+	}
+}
